@@ -67,8 +67,8 @@ PROPS = {
         "modules": ["ArgMapper.Props.C18"],
         "rule": "dij: >=2 edges and >=2 vertices reachable from the source.",
         "runs": {
-            "quick": [fam("dij", 800, 7), fam("dij", 300, 7, "neg"), fam("dij", 100, 5, "huge")],
-            "thorough": [fam("dij", 60000, 9), fam("dij", 20000, 12), fam("dij", 20000, 8, "neg"), fam("dij", 3000, 6, "huge")],
+            "quick": [fam("dij", 800, 7), fam("dij", 300, 7, "neg"), fam("dij", 100, 5, "huge"), fam("dij", 19683, 3, "exhaustive")],
+            "thorough": [fam("dij", 60000, 9), fam("dij", 20000, 12), fam("dij", 20000, 8, "neg"), fam("dij", 3000, 6, "huge"), fam("dij", 19683, 3, "exhaustive")],
         },
     },
     "C19": {
@@ -93,8 +93,8 @@ PROPS = {
         "modules": ["ArgMapper.Props.C20"],
         "rule": "dfs/kahn/scc/topo: >=3 vertices and >=2 edges.",
         "runs": {
-            "quick": [fam("dfs", 500, 7), fam("kahn", 400, 7), fam("scc", 400, 7), fam("topo", 400, 7)],
-            "thorough": [fam("dfs", 40000, 10), fam("kahn", 30000, 10), fam("scc", 30000, 10), fam("topo", 30000, 10),
+            "quick": [fam("dfs", 500, 7), fam("kahn", 400, 7), fam("scc", 400, 7), fam("topo", 400, 7), fam("dfs", 512, 3, "exhaustive"), fam("kahn", 512, 3, "exhaustive"), fam("scc", 512, 3, "exhaustive")],
+            "thorough": [fam("dfs", 65536, 4, "exhaustive"), fam("kahn", 65536, 4, "exhaustive"), fam("scc", 65536, 4, "exhaustive"), fam("dfs", 40000, 10), fam("kahn", 30000, 10), fam("scc", 30000, 10), fam("topo", 30000, 10),
                          fam("dfs", 5000, 14), fam("scc", 5000, 14)],
         },
     },
